@@ -764,6 +764,15 @@ def text_laws(route):
             again = [bytes(m) for m in UpdateCollection([routed], [], upd.attributes).messages(nout)]
             if not again or (again[0] != packed[0] and not same_update_modulo_attribute_order(again[0], packed[0])):
                 v.append((f'text-roundtrip:update:{fn}:repack-differs{tag}', f'{packed[0].hex()[:300]} then {(again[0].hex() if again else "")[:300]}'))
+            # the same bytes decoded a second time on the same session, the daemon's caches left as the first decode left
+            # them: the object decoded is a function of the bytes, so the same routes come back and pack to the same bytes
+            upd2 = UpdateCollection.unpack_message(body, nin)
+            if len(upd2.announces) != len(upd.announces) or not upd2.announces or not (upd2.announces[0].nlri == n):
+                v.append((f'text-roundtrip:update:{fn}:second-decode-differs{tag}', f'{packed[0].hex()[:200]} decoded twice in a row: first {[str(r.nlri) for r in upd.announces][:3]}, then {[str(r.nlri) for r in upd2.announces][:3]}'))
+            else:
+                again2 = [bytes(m) for m in UpdateCollection([upd2.announces[0]], [], upd2.attributes).messages(nout)]
+                if not again2 or (again2[0] != packed[0] and not same_update_modulo_attribute_order(again2[0], packed[0])):
+                    v.append((f'text-roundtrip:update:{fn}:second-decode-repack-differs{tag}', f'{packed[0].hex()[:300]} then {(again2[0].hex() if again2 else "")[:300]}'))
         except Exception as e:  # noqa: BLE001
             v.append((f'text-roundtrip:update:{fn}:exception:{type(e).__name__}{tag}', f'{route.extensive()[:120]}: {type(e).__name__}: {str(e)[:160]}'))
     seen = {sig for sig, _ in v if not sig.endswith(':asn2-session')}
